@@ -65,6 +65,17 @@ CHECKS = {
               "their mean over the unpadded dimension, for both signs of the rank, paddings, exponents, ridge modes. No absence proof."),
         note="Trusted: NumPy float64 eigh/tensordot; tolerances derived from eigen-gap and root conditioning (stated in evidence.assumptions).",
         design="DESIGN.md section 3, C10"),
+    "C09": dict(
+        category="exploration",
+        technique="property-based testing of the three frequent-directions implementations over generated gradient histories against an exact float64 covariance recursion (PSD bracket, escaped-mass recurrence, zero-gradient law, lossless tracking, inverse roots)",
+        text=("Generated-input search over histories (full / low-rank subspace / zero / repeat / scaled steps), sketch rank, decay, tensor "
+              "rank and axis, padding and ridge placement, through four drivers: DS _fd_update_root iterated directly (float64), the "
+              "sketches inside distributed_shampoo(frequent_directions=True) state, Tearfree Sketchy's public update (float32) and OCO "
+              "S-AdaGrad. After every step the sketch is compared with the exact covariance (two-sided PSD bracket, t_new = b t_old + r with "
+              "r recomputed by NumPy, deflated spectrum, orthonormal-or-zero directions, stored inverse roots). ~2.6e3 histories / 1.6e4 "
+              "steps quick. No absence proof."),
+        note="Trusted: NumPy float64 eigvalsh/svd; the ridge-placement model per implementation stated in evidence.assumptions. One known finding (KF-C09-1) is reported, its axis class excluded and counted.",
+        design="DESIGN.md section 3, C09"),
 }
 
 NOT_YET = {}
